@@ -49,8 +49,7 @@ def ob_rib_in(w0: bool, w1: bool, w2: bool, a0: bool, a1: bool, a2: bool, lp: in
     """arbitrary pre-RIB (presence pattern P['present'], symbolic attribute values) + one UPDATE"""
     assume(0 <= lp < 2 ** 32 and 0 <= p0 < 2 ** 32 and 0 <= p1 < 2 ** 32 and 0 <= ver < 2 ** 31)
     wsel, asel = [w0, w1, w2], [a0, a1, a2]
-    for i in range(3):
-        assume(not (wsel[i] and asel[i]))
+    # (the same prefix may stand in both fields of one UPDATE: RFC 4271 section 4.3 - the announcement counts)
     present = P['present']
     w = world()
     p = w.fsm.protocol
@@ -248,6 +247,16 @@ def ob_family_version(m1: int, m2: int) -> bool:
     elif second == 3:
         w.ev_data(unreach(items[1]))
         exp = v1
+    elif second == 6:
+        # one MP_UNREACH_NLRI withdrawing an absent rule first and then the present one
+        gone = []
+        for it in (items[2], items[0]):
+            g = dict(it)
+            if fam != 'flowspec':
+                g['label'] = [524288]
+            gone.append(g)
+        w.ev_data(Update.construct({'attr': {15: {'afi_safi': afi_safi, 'withdraw': gone}}}, True))
+        exp = v1 + 1
     else:
         # one UPDATE that announces the other rule and withdraws the present one (4) / an absent one (5)
         gone = dict(items[0] if second == 4 else items[2])
@@ -280,7 +289,7 @@ def obligations(tier, seed):
     for fam in ('flowspec', 'vpnv4'):
         out.append(ob('C19/version/%s/change-then-repeat' % fam, 'ob_family_version', {'family': fam, 'second': 0, 'third': True},
                       covers=['second'], cap=280 if quick else 800))
-        for second in range(6):
+        for second in range(7):
             out.append(ob('C19/version/%s/second=%d' % (fam, second), 'ob_family_version', {'family': fam, 'second': second},
                           covers=['second'], cap=280 if quick else 800))
     return out
